@@ -106,15 +106,19 @@ def grid_hi(G, key):
 
 
 def work(chunk):
-    key, lo, hi, ages, esaa, step = chunk
+    key, lo, hi, ages, esaa, step = chunk[:6]
+    spell = chunk[6] if len(chunk) > 6 else None        # (gender spelling, event spelling) passed to the function
     G = setup()
     g, e = key
     row = G['rows'][key]
     score = G['score']
     acc = Acc()
     coeffs = dict(A=Decimal(ESAA['A']), Z=Decimal(ESAA['Z']), X=Decimal(ESAA['X'])) if esaa else None
+    gs, es = spell or (g, e)
+    prev_pts = None
     for age in ages:
         F = wma_factor(G, g, e, age)
+        prev_pts = None
         for cs in range(lo, hi, step):
             forms = [cs / 100.0]
             if cs % 100 == 0:
@@ -136,16 +140,16 @@ def work(chunk):
                 acc.add('marks_not_integral_in_binary')
             for v in forms:
                 acc.n += 1
-                case = dict(gender=g, event=e, mark=v, age=age, esaa=esaa)
+                case = dict(gender=gs, event=es, mark=v, age=age, esaa=esaa)
                 try:
-                    got = score(g, e, v, age, esaa) if esaa else (score(g, e, v, age) if age is not None else score(g, e, v))
+                    got = score(gs, es, v, age, esaa) if esaa else (score(gs, es, v, age) if age is not None else score(gs, es, v))
                 except Exception as ex:
                     acc.bad('score-raises:%s:%s' % (type(ex).__name__, 'age<35' if age is not None and age < 35 else 'age>=35' if age else 'no-age'),
                             case, 'raised %r; exact formula gives %d' % (ex, want))
                     continue
                 if type(got) is not int or got != want:
                     band = 'no-age' if age is None else ('age<35' if age < 35 else 'age>=35')
-                    acc.bad('points-differ-from-exact-formula:%s:%s' % (kind_of(G, row['ev']), band), case,
+                    acc.bad('points-differ-from-exact-formula:%s:%s%s' % (kind_of(G, row['ev']), band, ':spelling-variant' if spell else ''), case,
                             'score=%r, exact formula on the decimal mark gives %d (factor %s)' % (got, want, F))
                 elif want > 0:
                     acc.nontrivial += 1
@@ -233,6 +237,20 @@ def run(tier):
         mid = int(row['Z'] * 100 * Decimal('0.6')) if knd == 'timed' else (int(row['Z']) + 150 if knd == 'jump' else int(row['Z'] * 100) + 1500)
         chunks.append((k, mid, mid + (200 if tier == 'quick' else 1000), list(range(1, 115)), False, 1))
     t2 = merge(rep, pmap(work, chunks), part='every age 1..114 on a window of each row')
+    # (2b) letter-case spellings of gender and event (the scoring key is case-insensitive) on a window of each table row
+    chunks = []
+    for k in keys:
+        if k in ALIASES:
+            continue
+        g, e = k
+        row = G['rows'][k]
+        knd = kind_of(G, row['ev'])
+        mid = int(row['Z'] * 100 * Decimal('0.6')) if knd == 'timed' else (int(row['Z']) + 150 if knd == 'jump' else int(row['Z'] * 100) + 1500)
+        sps = [(g.lower(), e), (g, e.lower()), (g.lower(), e.lower()), (g, e.capitalize())]
+        for sp in dict.fromkeys(sps):
+            if sp != (g, e):
+                chunks.append((k, mid, mid + 400, [None, 50], False, 1, sp))
+    merge(rep, pmap(work, chunks), part='letter-case spellings of gender / event on a window of each row (ages none, 50)')
     # (3) bands on the full grid of the rows that have a factor
     ages = FACTOR_AGES_QUICK if tier == 'quick' else ALL_BANDS
     chunks = []
